@@ -5,6 +5,7 @@ import numpy as np
 from .. import core, gen
 
 ID = 'C02'
+FOUNDATIONS = ['harness.foundation.cscalar']   # ties of the C++ helper functions the model rests on (generated from their text)
 LEVEL = 'proof'
 RULE = ('corpus; subm: all 65536 pairs of int8 and of uint8 values (both tiers) and boundary-dense random pairs of the '
         'wider dtypes and bool; operators: random 1-3 D images x {bool, uint8, uint16, uint32, uint64} (plus some signed '
